@@ -47,6 +47,7 @@ def evaluate(case, tr, res, bound=None, paused=False):
         c17(case, tr, res)
         c18(case, tr, res)
         c07_overrate(case, tr, res)
+        c04_skippable(case, tr, res)
         if res['outcome'] == 'completed':
             c04(case, tr, res)
             c02_final(case, tr, res)
@@ -64,6 +65,7 @@ def evaluate(case, tr, res, bound=None, paused=False):
 def c01(case, tr, res):
     """sweep + accounting of adversarial proposals; recorded-interval overlaps
     are a diagnostic only (off-by-one convention, DESIGN section 1)."""
+    tr.cnt['c01_adversarial_rewrites'] += len(getattr(tr, 'advlog', []) or [])
     by_m = {}
     for r in tr.dowork:
         by_m.setdefault(r['machine'], []).append(r)
@@ -252,6 +254,26 @@ def c04(case, tr, res):
         if b[0] < a[1]:
             tr.cnt['c04_overlapping_workflows'] = 1
             break
+
+
+def c04_skippable(case, tr, res):
+    """Proposals on a busy or duplicated machine are 'skipped' proposals: on pairings where a
+    skipped proposal becomes legal again by itself (queue: busy/dup, batch: dup within the own
+    reservation) they must not end the run - otherwise the remaining tasks never execute."""
+    adv = case.get('adversary')
+    if not adv or tr.permuting:
+        return
+    prof = set(adv['profile'])
+    ok = (case['pairing'] == 'queue' and prof <= {'busy', 'dup'}) or \
+         (case['pairing'] == 'batch' and prof <= {'dup'})
+    if not ok:
+        return
+    tr.cnt['c04_skippable_runs'] += 1
+    if res['outcome'] == 'error' and getattr(tr, 'advlog', None):
+        w = res['exc'].get('where') or {}
+        tr.violate('C04', 'run_aborted_by_skippable_proposal', exc=res['exc']['type'],
+                   func=w.get('func'), pairing_family=case['pairing'],
+                   rewrites=len(tr.advlog), msg=res['exc']['msg'][:100])
 
 
 def c05(case, tr, res, bound):
